@@ -5,8 +5,8 @@
    Tensor.zeros -- on top of the numpy / Tensor models of Tensor/NumpyModel.v
    and Tensor/Tensor.v and of the structural core Core/Diagram.v.
 
-   The model is BUG-COMPATIBLE: obj_to_dim ignores the winding number without
-   reversing the image (finding F5), exactly as the code does.
+   obj_to_dim follows the repaired code (finding F5 fixed upstream by commit
+   413701f): adjoints x.l / x.r go to the reversed image.
 
    Also: the program DSL of the C09 correspondence check and its wire codec.
    Definitions only; proofs are in TFun/TFunLemmas.v. *)
@@ -64,10 +64,13 @@ Definition tensordot_axes (a b : arr) (axa axb : list nat) : res arr :=
    box to numpy.array(self.ar[box]); both may raise *)
 Record finterp := FI { fob : Z -> fres (list Z); far : box -> fres arr }.
 
-(* obj_to_dim: the winding number oz o is dropped (z := 0) and the image is
-   NOT reversed (F5); int -> Dim(int); Dim(...) drops 1s, ValueError on < 1 *)
+(* obj_to_dim (after the F5 repair, /repo commit 413701f): the image of the
+   z = 0 object, as an int -> Dim(int) or a Dim (Dim(...) drops 1s, ValueError
+   on < 1), reversed when the winding number is odd:
+   `return result.r if winding % 2 else result`  (Python's -1 % 2 == 1) *)
 Definition obj_to_dim (F : finterp) (o : ob) : fres (list nat) :=
-  fdo l <- fob F (oname o); lift (mk_dim l).
+  fdo l <- fob F (oname o); fdo d <- lift (mk_dim l);
+  FOk (if Z.odd (oz o) then rev d else d).
 
 (* Functor.__call__ on a Ty: Dim(1).tensor( *map(obj_to_dim, diagram.objects)) -- the
    star-argument forces every lookup, left to right, before the product *)
